@@ -13,13 +13,13 @@ CHECKS = {
    text='Every signature sequence up to the node bound (full type alphabet) and a larger bound over a reduced alphabet, with boundary values, four presentation styles, both byte orders and all 8 start offsets, is encoded and decoded by the real code; encoder length, decoder consumption and value identity are checked on every case. Exhaustive within the bound; nothing is sampled.',
    note='Holds for the enumerated bound only (types <= K nodes plus fixed deep/long families). Trusts mcx/refcodec.as_plain for the normalisation the statement names.'),
  'C02': dict(engine=E1, ref='DESIGN.md 3/C02', technique='bounded-exhaustive enumeration compared byte-for-byte with an independent reference codec, both directions',
-   text='Same space as C01; the library bytes must equal the bytes of a reference encoder written from the specification, and the reference bytes (including variants of types the library never infers) must decode to the value; plus every (type code, offset) pair of the alignment rule.',
+   text='Same space as C01; the library bytes must equal the bytes of a reference encoder written from the specification, and the reference bytes (including variants of types the library never infers) must decode to the value; plus every (type code, offset) pair of the alignment rule. 46 bodies are also checked inside whole messages: built by the library, and after a trip through the built-in bus in either byte order (body bytes = the typed encoding in the byte order the header announces).',
    note='Trusts mcx/refcodec.py as a reading of the specification; bound as C01.'),
  'C18': dict(engine=E1, ref='DESIGN.md 3/C18', technique='exhaustive enumeration of all strings up to length 6 over a character-class alphabet against hand-written grammar recognisers',
    text='All 1.1 million strings of length <= 6 over one representative per character class are given to the five validators twice (in both orders, so cross-validator caches show) and compared with recognisers written from the specification; the 255-byte boundary; every string of length <= 3 (4 thorough) in each of the 11 name-carrying constructor slots with the wire content re-read by the reference parser.',
    note='Character classes are represented by one member each; longer names only at the length boundary. Trusts mcx/ref/grammar.py.'),
  'C03': dict(engine=E1, ref='DESIGN.md 3/C03', technique='bounded-exhaustive enumeration of message descriptions; every message checked by an independent parser and re-parsed; foreign encodings enumerated over byte order, header-field permutations and unknown field positions',
-   text='All combinations of message type, optional header fields, flag bits, 30 bodies covering every alignment and every header padding 0..7 are constructed; an independent parser checks well-formedness (typed fields, flags byte, padding, body length, fresh serial) and parseMessage must recover everything, both from its own bytes and from the bytes a conforming foreign encoder produces (both byte orders, permuted fields, unknown field codes at every position); a parsed message serialised again must be the same well-formed message; every ordered triple of descriptor-carrying calls built in one process. The 2**27 limit is probed with real messages at -1/0/+1/+8 bytes for every header padding. Every name slot of every message type (with and without the optional fields) is given 6-13 strings the reference grammar rejects: construction must fail with a marshalling error. Every foreign encoding (both byte orders) is also parsed and serialised again, as the bus does when it stamps the sender, and must still be the same well-formed message.',
+   text='All combinations of message type, optional header fields, flag bits, 30 bodies covering every alignment and every header padding 0..7 are constructed; an independent parser checks well-formedness (typed fields, flags byte, padding, body length, fresh serial) and parseMessage must recover everything, both from its own bytes and from the bytes a conforming foreign encoder produces (both byte orders, permuted fields, unknown field codes at every position); a parsed message serialised again must be the same well-formed message; every ordered triple of descriptor-carrying calls built in one process. The 2**27 limit is probed with real messages at -1/0/+1/+8 bytes for every header padding. Every name slot of every message type (with and without the optional fields) is given 6-13 strings the reference grammar rejects: construction must fail with a marshalling error. Every foreign encoding (both byte orders) is also parsed and serialised again, as the bus does when it stamps the sender, and must still be the same well-formed message. Every constructed and every foreign message (both byte orders) also makes a trip through the real built-in bus and must arrive as the same well-formed message with only the sender stamped; invalid names include every one-character mutation of a valid name that the reference grammar rejects.',
    note='Bodies are a fixed list of 30 (the full value space is C01/C02). Trusts mcx/refcodec message encoder/parser.'),
  'C05': dict(engine=E1, ref='DESIGN.md 3/C05', technique='exhaustive mutation enumeration (truncations, byte substitutions, lying length words, all short hostile signatures) under a deterministic interpreter-step budget',
    text='Every truncation, every position x substitution set, every aligned length word x lying values of 12 base messages, every string of length <= 4 (6 thorough) over the container alphabet as body signature and as variant signature against 6 hostile bodies, plus zero-size-element, deep-nesting, sibling-container, back-reference / negative-length and large lying-length families (every element type), are parsed by parseMessage and delivered to BasicDBusProtocol under a line-event budget affine in the input length; exceeding it, MemoryError, or a result larger than the input is a violation. Header fields repeated m times in front of an m-element body (every field code, an unknown one) and growing bodies of 7 container shapes are measured at m and 4m: the work at 4m must stay within 5x the work at m. The peak number of bytes allocated at one time during each decode (tracemalloc) must stay within 4 MB + 200 x len.',
@@ -37,28 +37,28 @@ CHECKS = {
    text='The complete reachable state space of the client authenticator under 14 server lines x {UNIX, non-UNIX} is explored and every step checked against: BEGIN/binary only after a valid OK and an answered descriptor negotiation, AUTH lines a prefix of the preference order, next mechanism or close after REJECTED/ERROR, a new AUTH only after REJECTED/ERROR, close on lines outside the protocol, no stall; every line sequence up to length 2 (3) delivered coalesced and byte-wise must behave as line by line. 84 reference-server configurations (mechanism subsets x negotiation answers x EXTERNAL variants x transports) must complete, also with each server line cut at every position, with a stale cookie id, and over consecutive connections with a rotated cookie.',
    note='~/.dbus-keyrings is redirected to a scratch keyring by wrapping the os module seen by txdbus.authentication; os.urandom is fixed.'),
  'C08': dict(engine=E2, ref='DESIGN.md 3/C08', technique='explicit-state BFS with deduplication over interleavings of issue/reply/error/expiry/unsolicited/loss events on a real client connection with a virtual clock, against a reference call table',
-   text='For 8 (10 thorough) call configurations (deadline order, declared return signature, reply and error shapes, no-reply calls) every interleaving of the events of 2-3 (4 thorough) concurrent calls is explored; after every event each Deferred must have fired exactly as the reference table says, the armed timers must equal the outstanding deadlines, and running the clock out plus late replies must change nothing.',
+   text='For 8 (10 thorough) call configurations (deadline order, declared return signature, reply and error shapes, no-reply calls) every interleaving of the events of 2-3 (4 thorough) concurrent calls is explored; after every event each Deferred must have fired exactly as the reference table says, the armed timers must equal the outstanding deadlines, and running the clock out plus late replies must change nothing. Every second reply and error arrives big-endian.',
    note='Calls are issued in index order. Replies are real bytes through dataReceived.'),
  'C09': dict(engine=E2, ref='DESIGN.md 3/C09', technique='crash-point enumeration of connect() on a memory reactor; explicit-state BFS over calls/callbacks/proxies with connection loss injected in every reachable state',
-   text='Every address list up to 3 entries x every reachability vector x the transport closing after each server step of three conversation variants: attempt order and exactly-once firing of the connect Deferred; every list connected to twice with one reactor. For an established connection, all orders (to depth 4 for the full alphabet; to the fixpoint for the proxy and the call/callback sub-alphabets) of calls with/without deadlines, callback registration/cancellation, explicit/known-name/introspected proxies (two for one object, dropped ones) followed by the loss in every state. The same callable registered twice / one registration of it cancelled is part of the event alphabet (connection and proxy). Hello is also refused with an error reply that has no body / whose first value is not a string; a call answered by a body-less error reply before the loss is part of the loss alphabet.',
+   text='Every address list up to 3 entries x every reachability vector x the transport closing after each server step of three conversation variants: attempt order and exactly-once firing of the connect Deferred; every list connected to twice with one reactor. For an established connection, all orders (to depth 4 for the full alphabet; to the fixpoint for the proxy and the call/callback sub-alphabets) of calls with/without deadlines, callback registration/cancellation, explicit/known-name/introspected proxies (two for one object, dropped ones) followed by the loss in every state. The same callable registered twice / one registration of it cancelled is part of the event alphabet (connection and proxy). Hello is also refused with an error reply that has no body / whose first value is not a string; a call answered by a body-less error reply before the loss is part of the loss alphabet. A conversation in which the first two mechanisms are refused with the list of supported mechanisms and the third accepted is part of the crash-point enumeration.',
    note='Loss arrives as connectionLost(ConnectionDone); a dropped proxy is not live.'),
  'C13': dict(engine=E2, ref='DESIGN.md 3/C13', technique='explicit-state BFS to a fixpoint on a real Bus with scripted raw clients, step-compared with a reference name table, table read back through the bus after every step',
-   text='(state = reference table + digest of every library object) All histories of RequestName (8 flag values), ReleaseName and disconnect by 3 clients on 1 name are explored to the fixpoint (and 2 clients x 2 names to depth 4; 4 clients / 3 clients x 2 names when thorough); after every step the reply code, the NameAcquired recipients and GetNameOwner / ListQueuedOwners for every name are compared with the reference table.',
+   text='(state = reference table + digest of every library object) All histories of RequestName (8 flag values), ReleaseName and disconnect by 3 clients on 1 name are explored to the fixpoint (and 2 clients x 2 names to depth 4; 4 clients / 3 clients x 2 names when thorough); after every step the reply code, the NameAcquired recipients and GetNameOwner / ListQueuedOwners for every name are compared with the reference table. The same table is driven through the client API (requestBusName with six flag / errback combinations, releaseBusName, getNameOwner, listQueuedBusNameOwners) of three real clients on a real bus.',
    note='Where a replaced owner goes is left open (adopted from the bus); NameLost / NameOwnerChanged not compared.'),
  'C20': dict(engine=E2, ref='DESIGN.md 3/C20', technique='stateless exploration: exhaustive enumeration of interleavings of descriptor arrivals and reads (under cut sets) on the real receiver; exhaustive call sequences on the real sender',
    text='Every sequence of up to 3 calls over 9 bodies is sent through callRemote and the transport log compared (descriptors in argument order ahead of the bytes, declared count, indexes). The same sequences, reference-encoded in both byte orders, are delivered under no cut / every single cut (pairs when thorough) (as calls and as returns / signals / errors) in every order of descriptor arrivals and reads a stream socket allows; a trailing probe message shows exactly the declared count was consumed. Three received-only bodies hold descriptors inside variants (v, a{sv}h, hav).',
    note='Descriptors are plain integers on a fake transport; arrival model is the statement\'s.'),
  'C10': dict(engine=E2, ref='DESIGN.md 3/C10', technique='bounded-exhaustive enumeration of call histories (every ordered pair from a call pool, 4 export orders) on freshly built object classes; enumerated firing orders of held Deferreds; reference dispatcher',
-   text='A pool of several hundred incoming calls (right/wrong path, interface, member, signature, reply flag; dbus_ and decorator bindings, one member on two interfaces, base/derived classes binding members of one interface, dbusCaller) is delivered as real bytes: every single call under 4 export orders and every ordered pair; replies are parsed by the reference parser and compared with a reference dispatcher (who runs, how often, reply count, addressing, serial, encoding, error names). Two held Deferreds are fired in both orders with value / failure / unencodable value.',
+   text='A pool of several hundred incoming calls (right/wrong path, interface, member, signature, reply flag; dbus_ and decorator bindings, one member on two interfaces, base/derived classes binding members of one interface, dbusCaller) is delivered as real bytes: every single call under 4 export orders and every ordered pair; replies are parsed by the reference parser and compared with a reference dispatcher (who runs, how often, reply count, addressing, serial, encoding, error names). Two held Deferreds are fired in both orders with value / failure / unencodable value. A composed run (real caller, real bus, real exporter) issues calls with all four combinations of the no-reply and no-auto-start flags and counts the replies on the wire.',
    note='History length 2. With no interface header any declaring interface may be chosen.'),
  'C11': dict(engine=E2, ref='DESIGN.md 3/C11', technique='stateless depth-first exploration of all delivery interleavings (plus bounded cuts) of the composed bus + clients system, one real execution per path',
-   text='A real Bus with 2-3 (4 thorough) real client connections joined by byte queues is brought up with real authentication, Hello, export, RequestName and proxy acquisition (explicit interface or introspection); then for 8 (10) scenarios of 2-3 concurrent proxy calls every delivery order of the queued chunks and every firing point of held Deferreds, plus up to 1 (2) cut inside a chunk, is executed and the results compared with what the exported methods returned or raised. Proxies are also obtained from lists of interface names in both orders with each subset of the names unknown locally (9 modes).',
+   text='A real Bus with 2-3 (4 thorough) real client connections joined by byte queues is brought up with real authentication, Hello, export, RequestName and proxy acquisition (explicit interface or introspection); then for 8 (10) scenarios of 2-3 concurrent proxy calls every delivery order of the queued chunks and every firing point of held Deferreds, plus up to 1 (2) cut inside a chunk, is executed and the results compared with what the exported methods returned or raised. Proxies are also obtained from lists of interface names in both orders with each subset of the names unknown locally (9 modes). A read joining a chunk with a prefix of the chunk behind it is a further deviation.',
    note='One chunk per transport write; all parties in one process.'),
  'C12': dict(engine=E1, ref='DESIGN.md 3/C12', technique='exhaustive enumeration of rule x message pairs against an independent matcher; explicit-state BFS over add/remove/route histories; rule-text round trip through an independent parser and the built-in bus',
-   text='Every rule with up to 3 (all 9 thorough) constraint keys, two values each, against ~1500 messages through the real router; BFS over addMatch/delMatch/signal histories on a real client connection (callbacks that raise, id reuse); the AddMatch text of every rule with up to 2 (3) keys parsed independently and fed to the built-in bus whose broadcasts must follow the matcher; proxy notifyOnSignal/cancelSignalNotification with matching and mismatching signatures. One argument constraint (exact string and path) at every index 0..63 is checked through the router, the rule text and the built-in bus. Argument-path rules and arguments where both end in \'/\' and either is a prefix of the other are part of every family.',
+   text='Every rule with up to 3 (all 9 thorough) constraint keys, two values each, against ~1500 messages through the real router; BFS over addMatch/delMatch/signal histories on a real client connection (callbacks that raise, id reuse); the AddMatch text of every rule with up to 2 (3) keys parsed independently and fed to the built-in bus whose broadcasts must follow the matcher; proxy notifyOnSignal/cancelSignalNotification with matching and mismatching signatures. One argument constraint (exact string and path) at every index 0..63 is checked through the router, the rule text and the built-in bus. Argument-path rules and arguments where both end in \'/\' and either is a prefix of the other are part of every family. Every history (length <= 4, 5 thorough) of subscribe / cancel / signal over three proxies on two connections of one process.',
    note='sender / arg0namespace constraints are outside the statement.'),
  'C14': dict(engine=E2, ref='DESIGN.md 3/C14', technique='explicit-state BFS over send / consume (whole or prefix) / name-takeover / match-rule / disconnect events on a real Bus with scripted raw clients against a reference bus',
-   text='Three raw clients (state = reference bus + digest of every library object); name take-over, queueing and release; 12 message templates (all types, every destination kind, forged / true / absent sender, flag bits); outbound queues let the bus consume messages in every order relative to ownership changes, rule changes and a disconnect, whole or prefix-first. Every arriving message is parsed by the strict reference parser and compared with the reference bus. A second search covers connect/disconnect histories for fresh unique names. A further search runs bus-addressed messages of all four types under catch-all rules (empty rule, type=\'method_call\', destination=\'org.freedesktop.DBus\'); a client\'s own calls to the bus must show up nowhere else.',
+   text='Three raw clients (state = reference bus + digest of every library object); name take-over, queueing and release; 12 message templates (all types, every destination kind, forged / true / absent sender, flag bits); outbound queues let the bus consume messages in every order relative to ownership changes, rule changes and a disconnect, whole or prefix-first. Every arriving message is parsed by the strict reference parser and compared with the reference bus. A second search covers connect/disconnect histories for fresh unique names. A further search runs bus-addressed messages of all four types under catch-all rules (empty rule, type=\'method_call\', destination=\'org.freedesktop.DBus\'); a client\'s own calls to the bus must show up nowhere else. Message bodies carry typed variant contents (u, o, y, a struct) that must arrive as sent; the head message may be consumed together with a prefix of the next.',
    note='Depth 4 quick / 6 thorough; >= 1 copy demanded for broadcasts.'),
  'C15': dict(engine=E1, ref='DESIGN.md 3/C15', technique='bounded-exhaustive enumeration of interface definitions; XML checked by an independent parser and the reference signature splitter; parse-back comparison; proxy acceptance',
    text='Every (in, out) pair of a pool of 40 (more thorough) signature sequences as a method, every signal, every property type x access x notification, fuller interfaces, and objects with 2-3 interfaces in every order x every subset registered locally x replace flag (each parsed repeatedly in one process, registry checked), and definitions built incrementally (add / re-declare / delete) with the XML read after every step.',
@@ -67,7 +67,7 @@ CHECKS = {
    text='After every export/unexport over a 7-path universe with prefix-sharing siblings, each path and two outsiders are queried with real call bytes (ordinary call, Introspect, GetManagedObjects) and compared with the set-theoretic reference; each event must announce itself with exactly one InterfacesAdded/Removed. A second pass adds the event \'export another object at an occupied path\'.',
    note='Export only of unexported paths, unexport only of exported ones.'),
  'C17': dict(engine=E2, ref='DESIGN.md 3/C17', technique='explicit-state BFS over local assignments and remote Set calls on two objects (base/derived, same-named property on two interfaces), full read-back through Get/GetAll after every step against a reference store',
-   text='12 property declarations over 3 interfaces on three objects (two instances of the base class, one read before assigned, and a derived one); values include foreign typed wrappers; every assignment and every Set (right / empty / other interface name, unknown property) to depth 2 (3), both class initialisation orders; after every event the Set reply, the PropertiesChanged signals and the whole table read back through GetAll and Get under right / empty / unknown interface names. Interface names that are a proper prefix or an extension of a declared one must behave as unknown in Get and GetAll. One write-only notifying property of two objects is left unassigned until after the export, so that its first assignment ever (local or by Set) is an explored event.',
+   text='12 property declarations over 3 interfaces on three objects (two instances of the base class, one read before assigned, and a derived one); values include foreign typed wrappers; every assignment and every Set (right / empty / other interface name, unknown property) to depth 2 (3), both class initialisation orders; after every event the Set reply, the PropertiesChanged signals and the whole table read back through GetAll and Get under right / empty / unknown interface names. Interface names that are a proper prefix or an extension of a declared one must behave as unknown in Get and GetAll. One write-only notifying property of two objects is left unassigned until after the export, so that its first assignment ever (local or by Set) is an explored event. String values are non-ASCII.',
    note='Ambiguous empty-interface access may choose either declaration; wrongly typed Sets are outside the statement.'),
 }
 
